@@ -21,7 +21,7 @@ def _apply(src, old, new):
 
 
 def _one(args):
-    pid, root, mid, module, old, new, clause, preserving = args
+    pid, root, mid, module, old, new, clause, preserving, tier = args
     try:
         from .loader import Repo, AnalysisError
         from . import report
@@ -39,7 +39,7 @@ def _one(args):
         repo = Repo(root, overrides={module: msrc})
         known = report.load_known()
         try:
-            run = analyse(pid, repo, 'quick')
+            run = analyse(pid, repo, tier)
         except AnalysisError as e:
             return (mid, 'analysis-error', str(e)[:200], clause)
         new_v = [o for o in run.violations() if report.match_known(o, known) is None]
@@ -66,10 +66,12 @@ def run_selftest(pid, root, out, jobs=None):
     for m in muts:
         mid, module, old, new = m[:4]
         clause = m[4] if len(m) > 4 else None
-        tasks.append((pid, root, mid, module, old, new, clause, False))
+        tier = m[5] if len(m) > 5 else 'quick'
+        tasks.append((pid, root, mid, module, old, new, clause, False, tier))
     for m in pres:
         mid, module, old, new = m[:4]
-        tasks.append((pid, root, mid, module, old, new, None, True))
+        tier = m[4] if len(m) > 4 else 'quick'
+        tasks.append((pid, root, mid, module, old, new, None, True, tier))
     t0 = time.time()
     results = []
     if tasks:
